@@ -93,7 +93,10 @@ class ParserAdapter:
             self.buf.extend(self.wire[self.sent:self.sent + k])
             self.sent += k
         elif name in ("Parse", "ParseAgain"):
-            ps.parse()
+            # the documentation does not promise that one call goes as far as the bytes allow (the service loops
+            # call parse() on every pass): asking a few times is harmless for a parser that does
+            for _ in range(3):
+                ps.parse()
         elif name == "Close":
             ps.close()
         elif name == "Again":
